@@ -31,14 +31,19 @@ def gen(rng, tier, idx):
     wp['depth'] = rng.choice([2, 3, 3, 4])
     wp['n_query'] = rng.choice([1, 2, 3, 5, 8, 12])
     W = world.make_world(wp)
-    mode = rng.choice(['drop', 'drop', 'flatten', 'unknown'])
-    level = rng.choice(W.tax.hierarchy[:-1]) if mode == 'drop' else None
+    mode = rng.choice(['drop', 'drop', 'drop', 'flatten', 'flatten', 'unknown', 'flatten_drop'])
+    # flatten_drop: both options at once -- the result is the flattened one, the dropped level's marker lists still
+    # belong to the union
+    level = rng.choice(W.tax.hierarchy[:-1]) if mode in ('drop', 'flatten_drop') else None
     a = common.draw_mapping_cfg(rng, W, drop_level=None, flatten=False)
     a['min_markers'] = max(1, a['min_markers'])
     if mode == 'drop':
         a['drop_level'] = level
     elif mode == 'flatten':
         a['flatten'] = True
+    elif mode == 'flatten_drop':
+        a['flatten'] = True
+        a['drop_level'] = level
     else:
         a['drop_level'] = 'no_such_level'
     b = mapfam.draw_side_cfg(rng, a, wp['n_query'], same_chunks=True)
@@ -64,7 +69,7 @@ def run(scn, sb):
         if mode == 'drop':
             tax_b = W.tax.drop_level(scn['level'])
             markers_b = None
-        elif mode == 'flatten':
+        elif mode in ('flatten', 'flatten_drop'):
             tax_b = W.tax.flatten()
             markers_b = {'None': sorted(set(g for v in W.markers.values() for g in v))}
         else:
